@@ -1,0 +1,134 @@
+//go:build verif
+
+// Verification hooks. This file is compiled only with the build tag "verif";
+// it adds exported accessors for /verif's harness and changes no existing code.
+
+package websocket
+
+import (
+	"bufio"
+	"io"
+	"net"
+	"net/http"
+	"net/url"
+	"sort"
+	"time"
+)
+
+// VerifFacts returns the compiled values of the constants and tables that the
+// formal model is generated from.
+func VerifFacts() map[string]interface{} {
+	codes := make([][2]int, 0, len(validReceivedCloseCodes))
+	for k, v := range validReceivedCloseCodes {
+		b := 0
+		if v {
+			b = 1
+		}
+		codes = append(codes, [2]int{k, b})
+	}
+	sort.Slice(codes, func(i, j int) bool { return codes[i][0] < codes[j][0] })
+	tok := make([]int, 256)
+	for i := range isTokenOctet {
+		if isTokenOctet[i] {
+			tok[i] = 1
+		}
+	}
+	return map[string]interface{}{
+		"finalBit":                     finalBit,
+		"rsv1Bit":                      rsv1Bit,
+		"rsv2Bit":                      rsv2Bit,
+		"rsv3Bit":                      rsv3Bit,
+		"maskBit":                      maskBit,
+		"maxFrameHeaderSize":           maxFrameHeaderSize,
+		"maxControlFramePayloadSize":   maxControlFramePayloadSize,
+		"defaultReadBufferSize":        defaultReadBufferSize,
+		"defaultWriteBufferSize":       defaultWriteBufferSize,
+		"continuationFrame":            continuationFrame,
+		"TextMessage":                  TextMessage,
+		"BinaryMessage":                BinaryMessage,
+		"CloseMessage":                 CloseMessage,
+		"PingMessage":                  PingMessage,
+		"PongMessage":                  PongMessage,
+		"CloseNormalClosure":           CloseNormalClosure,
+		"CloseGoingAway":               CloseGoingAway,
+		"CloseProtocolError":           CloseProtocolError,
+		"CloseUnsupportedData":         CloseUnsupportedData,
+		"CloseNoStatusReceived":        CloseNoStatusReceived,
+		"CloseAbnormalClosure":         CloseAbnormalClosure,
+		"CloseInvalidFramePayloadData": CloseInvalidFramePayloadData,
+		"ClosePolicyViolation":         ClosePolicyViolation,
+		"CloseMessageTooBig":           CloseMessageTooBig,
+		"CloseMandatoryExtension":      CloseMandatoryExtension,
+		"CloseInternalServerErr":       CloseInternalServerErr,
+		"CloseServiceRestart":          CloseServiceRestart,
+		"CloseTryAgainLater":           CloseTryAgainLater,
+		"CloseTLSHandshake":            CloseTLSHandshake,
+		"writeWaitMillis":              int(writeWait / time.Millisecond),
+		"minCompressionLevel":          minCompressionLevel,
+		"maxCompressionLevel":          maxCompressionLevel,
+		"defaultCompressionLevel":      defaultCompressionLevel,
+		"validReceivedCloseCodes":      codes,
+		"isTokenOctet":                 tok,
+		"keyGUID":                      string(keyGUID),
+		"errUnexpectedEOFCode":         errUnexpectedEOF.Code,
+		"errUnexpectedEOFText":         errUnexpectedEOF.Text,
+	}
+}
+
+// VerifNewConn builds a Conn of either role over conn without a handshake.
+func VerifNewConn(conn net.Conn, isServer bool, readBufferSize, writeBufferSize int, pool BufferPool, br *bufio.Reader, compress bool) *Conn {
+	c := newConn(conn, isServer, readBufferSize, writeBufferSize, pool, br, nil)
+	if compress {
+		c.newCompressionWriter = compressNoContextTakeover
+		c.newDecompressionReader = decompressNoContextTakeover
+	}
+	return c
+}
+
+// VerifSetMaskRand replaces the source of mask keys and returns a function
+// that restores the previous one.
+func VerifSetMaskRand(r io.Reader) (restore func()) {
+	old := maskRand
+	maskRand = r
+	return func() { maskRand = old }
+}
+
+// VerifMaskRandIs reports whether the mask source currently is r.
+func VerifMaskRandIs(r io.Reader) bool { return maskRand == r }
+
+func VerifEqualASCIIFold(s, t string) bool { return equalASCIIFold(s, t) }
+
+func VerifTokenListContainsValue(h http.Header, name, value string) bool {
+	return tokenListContainsValue(h, name, value)
+}
+
+func VerifParseExtensions(h http.Header) []map[string]string { return parseExtensions(h) }
+
+func VerifComputeAcceptKey(k string) string { return computeAcceptKey(k) }
+
+func VerifIsValidChallengeKey(k string) bool { return isValidChallengeKey(k) }
+
+func VerifCheckSameOrigin(r *http.Request) bool { return checkSameOrigin(r) }
+
+func VerifHostPortNoPort(u *url.URL) (string, string) { return hostPortNoPort(u) }
+
+func VerifMaskBytes(key [4]byte, pos int, b []byte) int { return maskBytes(key, pos, b) }
+
+func VerifNextTokenOrQuoted(s string) (string, string) { return nextTokenOrQuoted(s) }
+
+func VerifIsValidReceivedCloseCode(code int) bool { return isValidReceivedCloseCode(code) }
+
+func VerifIsValidCompressionLevel(l int) bool { return isValidCompressionLevel(l) }
+
+// VerifReadState exposes the read-side bookkeeping observable through errors only.
+func (c *Conn) VerifReadState() (remaining int64, final bool, length int64) {
+	return c.readRemaining, c.readFinal, c.readLength
+}
+
+// VerifWriteBufHeld reports whether the connection currently holds a write buffer.
+func (c *Conn) VerifWriteBufHeld() bool { return c.writeBuf != nil }
+
+// VerifCompressionNegotiated reports which compression functions are installed.
+func (c *Conn) VerifCompressionNegotiated() (write, read bool) {
+	return c.newCompressionWriter != nil, c.newDecompressionReader != nil
+}
